@@ -1,4 +1,4 @@
 def run(ctx):
     from . import factorize_proofs
 
-    return factorize_proofs.run(ctx, ["cut_right", "cut_left", "ravel2", "ravel3"])
+    return factorize_proofs.run(ctx, ["cut_right", "cut_left", "ravel2", "ravel3", "factorize"])
